@@ -34,6 +34,11 @@ argument and with the command continued after the literal by backslash-newline, 
 comment-only line in that continuation.  Expected argument = the Python value of the literal (Python
 itself evaluates it); the words after the continuation must still belong to the one command.
 
+Part E enumerates WORDS WITH SEVERAL `=` AND A `~` (every string of 3..5 characters over {a = ~ : /}
+with at least two `=` and a `~`) as a plain word and in the non-raw literals, expected STRICTLY by
+the rule written above tools.expand_path (leading `~`; `~` right after the FIRST `=` and after a `:`
+behind it), and verbatim in r'..' / @().
+
 Oracle (from the statement + docs/tutorial.rst, docs/strings.rst, docs/macros.rst, env docs):
   * quoted non-raw literal  -> one argument = documented expansion of its Python value;
   * raw literal             -> one argument = its Python value, untouched;
